@@ -74,7 +74,9 @@ fn main() {
     match fail {
         Some(f) => { code = f.trim().parse::<i32>().unwrap_or(10); eprintln!("rsync: failed to connect to {module}: Connection refused (111)"); }
         None => {
-            let src = ctrl.join("root").join(&module);
+            // host names are case-insensitive
+            let lower = match module.split_once('/') { Some((h, rest)) => format!("{}/{}", h.to_ascii_lowercase(), rest), None => module.to_ascii_lowercase() };
+            let src = ctrl.join("root").join(&lower);
             if !src.is_dir() { eprintln!("@ERROR: Unknown module '{module}'"); code = 5; }
             else if let Err(e) = mirror(&src, &dest) { eprintln!("fakersync: {e}"); code = 11; }
         }
